@@ -57,6 +57,17 @@ a             { return 1; }
 <XA>b         { return 2; }
 %%
 ''',
+ # a further unqualified <<EOF>> rule when every start condition has one: flex warns; the rule is unreachable
+ 'redundant': r'''
+%x XA
+%%
+a             { return 1; }
+<XA><<EOF>>   { return 51; }
+<<EOF>>       { return 52; }
+<<EOF>>       { return 53; }
+b             { return 2; }
+%%
+''',
 }
 
 TRAIL_PROBES = {
@@ -143,6 +154,11 @@ def eof_rule(ctx, rep, rule='C10.R6'):
     variants.instantiate(ctx.art, vs, 'eofmap')
     n = 0
     for v in vs:
+        if v.ll is None and not (v.crashed or v.refused) and v.ll_err:
+            rep.fail(rule, '%s:eof-arm:%s:scanner-does-not-compile' % (rule, v.name.split('_')[1]), v.name,
+                     'flex accepted the <<EOF>> rules of this probe (exit 0) but the generated scanner does not compile: %s' % v.ll_err.strip().split('\n')[0][-200:],
+                     replay_input=v.spec(), variant=v.describe())
+            continue
         if v.ll is None: rep.broken('%s: probe %s not generated: %s' % (rule, v.name, (v.stderr or v.ll_err)[-160:]))
         mod = variants.module(v); prog = variants.program(v)
         fn = mod.functions.get('yylex'); sw = action_switch(fn)
